@@ -148,10 +148,15 @@ def check_sorted_raw(vec, keyname):
     return None
 
 
-def check_interval(vec, a, b):
+def check_interval(vec, a, b, form=None):
     from windpyutils.generic import min_combinations_in_interval_iter_sorted as f
     elems = [f"e{i}" for i in range(len(vec))]
-    if (a + b + len(vec)) % 3 == 0:
+    if form == "str_elements":
+        # the elements are the characters of a string, the scores a bytes object / a tuple: sequences like any other
+        elems = list("abcdefghijkl"[:len(vec)])
+        scores_arg = bytes(vec) if all(isinstance(v, int) and 0 <= v < 256 for v in vec) and len(vec) % 2 else tuple(vec)
+        got = outcome(lambda: [(list(c), sc) for c, sc in f("abcdefghijkl"[:len(vec)], scores_arg, a, b)])
+    elif (a + b + len(vec)) % 3 == 0:
         # elements are only a payload: they need be neither orderable nor hashable
         class _E:
             __slots__ = ("name",)
@@ -330,6 +335,19 @@ def run_shard(spec):
                     bad = check_interval(big, a, b)
                     if bad:
                         report(bad, {"what": "interval", "vec": big, "a": a, "b": b})
+        if len(vec) and len(vec) <= 5 and i % 5 == 2:
+            tot = sum(vec)
+            for (a, b, form) in ((0, 10 ** 400, None), (-(10 ** 400), tot + 1, None), (1, 10 ** 400, None), (tot, 10 ** 400 + 1, None),
+                                 (0, tot + 1, "str_elements"), (1, 2, "str_elements"), (tot, tot + 1, "str_elements")):
+                res.evaluations += 1
+                res.count("interval_searches_with_huge_bounds_or_string_elements")
+                with instr.budget(50_000_000):
+                    try:
+                        bad = check_interval(vec, a, b, form)
+                    except instr.StepBudgetExceeded:
+                        bad = ("operation-does-not-end", f"interval search on {vec} exceeded the statement budget")
+                if bad:
+                    report(bad, {"what": "interval", "vec": vec, "a": a, "b": b, "form": form})
         if i % 23 == 0:
             # many elements, lazily: more combinations than could ever be listed; only the beginning of the order is used
             bad = check_many_elements(33 + i % 40, i)
@@ -364,7 +382,7 @@ def replay(doc):
     elif c["what"] == "many":
         bad = check_many_elements(c["n"], c["salt"])
     else:
-        bad = check_interval(c["vec"], c["a"], c["b"])
+        bad = check_interval(c["vec"], c["a"], c["b"], c.get("form"))
     if bad:
         return True, f"reproduced: {bad[0]}: {bad[1]}"
     return False, "agrees with brute force"
